@@ -203,7 +203,7 @@ def c04_2(ctx: Ctx) -> RuleResult:
     # remainder only when n_var < n
     guard = False
     for nd in nodes_in(f, ast.If):
-        t = norm(X.at(f, nd.test))
+        t = norm(X.value_at(f, nd.test))
         if t[0] == "cmp" and t[1] == "<" and t[2] in (norm(nvar), norm(nvar2)) and t[3] == norm(n):
             guard = any(isinstance(s, ast.Assign) and isinstance(s.targets[0], ast.Subscript) for s in nd.body)
     res.add(f, f.node, "the remainder is stored iff floor(p*n) < n", guard, "" if guard else "remainder store is not guarded by `n_var < n` (IndexError / mass beyond p)", construct=f"{f.name}: remainder guard")
@@ -459,7 +459,7 @@ def c04_6(ctx: Ctx) -> RuleResult:
             raises = [x for s in nd.body for x in ast.walk(s) if isinstance(x, ast.Raise) and x.exc is not None]
             if not any(contains(X.at(f, r.exc), lambda s: s == ("global", "ropt.enums.OptimizerExitCode.TOO_FEW_REALIZATIONS")) for r in raises):
                 continue
-            t = norm(X.at(f, nd.test))
+            t = norm(X.value_at(f, nd.test))
             # not any(0 < w)   (strictly positive)
             m = match(t, ("unary", "not", call("numpy.any", ("cmp", "<", C(0), V("w")))))
             if m is None:
